@@ -52,6 +52,13 @@ def handle (inp out : String) : String :=
             match o.splitOn "/" with
             | [h, f] => if h.drop 1 != f.drop 1 then some s!"verdict-on-the-used-object-{h}-differs-from-fresh-{f}" else none
             | _ => some s!"malformed-output-{o}"
+          else if op.startsWith "xp:" then
+            match o.splitOn ":" with
+            | [_, same, rec] =>
+              if same != "1" then some s!"deriving-a-signature-changed-the-source-{o}"
+              else if rec == "0" then some s!"the-extended-signature-lacks-the-publication-record-it-was-extended-to-{o}"
+              else none
+            | _ => some s!"malformed-output-{o}"
           else none
         -- serializations must also agree among themselves whatever the encoding
         let sers := (pairs.filter fun (op, _) => op == "s" || op == "c").map fun (_, o) => o.drop 1
